@@ -319,6 +319,17 @@ func (a *analysis) classifyCtxExpr(f *fn, at ast.Node, e ast.Expr, depth int) st
 		if o == nil {
 			return "CtxOther"
 		}
+		if depth == 0 {
+			// the variable may have been REASSIGNED (`ctx = context.WithoutCancel(ctx)`): flow-insensitively,
+			// any assignment of something that is not (derived from) the caller's context taints every use
+			for _, rhs := range reassignedRHS(f, o) {
+				switch k := a.classifyCtxExpr(f, at, rhs, depth+1); k {
+				case "CtxParam", "CtxDerived":
+				default:
+					return k
+				}
+			}
+		}
 		if params[o] {
 			return "CtxParam"
 		}
@@ -353,10 +364,70 @@ func (a *analysis) classifyCtxExpr(f *fn, at ast.Node, e ast.Expr, depth int) st
 		switch extName(f.pkg.Info, v) {
 		case "context.Background", "context.TODO", "context.WithoutCancel":
 			return a.background(f, at)
+		case "context.WithCancel", "context.WithTimeout", "context.WithDeadline", "context.WithValue",
+			"context.WithCancelCause", "context.WithTimeoutCause", "context.WithDeadlineCause":
+			if len(v.Args) > 0 && depth <= 4 {
+				switch k := a.classifyCtxExpr(f, at, v.Args[0], depth+1); k {
+				case "CtxParam", "CtxDerived":
+					return "CtxDerived"
+				default:
+					return k
+				}
+			}
 		}
 		return "CtxOther"
 	}
 	return "CtxOther"
+}
+
+// reassignedRHS: right-hand sides of plain assignments (`x = ...`, `x, y = f()`) to obj.
+func reassignedRHS(f *fn, obj types.Object) []ast.Expr {
+	var out []ast.Expr
+	ast.Inspect(f.decl, func(n ast.Node) bool {
+		as, ok := n.(*ast.AssignStmt)
+		if !ok || as.Tok != token.ASSIGN {
+			return true
+		}
+		for i, l := range as.Lhs {
+			id, ok := l.(*ast.Ident)
+			if !ok || f.pkg.Info.Uses[id] != obj {
+				continue
+			}
+			if len(as.Rhs) == len(as.Lhs) {
+				out = append(out, as.Rhs[i])
+			} else if len(as.Rhs) == 1 {
+				out = append(out, as.Rhs[0])
+			}
+		}
+		return true
+	})
+	return out
+}
+
+// ctxSubst: every call of context.Background / TODO / WithoutCancel in the analysed
+// packages, with whether a context is in scope there (a parameter of an enclosing function).
+type ctxSubst struct {
+	fn, callee string
+	hasCtx     bool
+}
+
+func (a *analysis) ctxSubsts() []ctxSubst {
+	var out []ctxSubst
+	for _, k := range a.order {
+		f := a.fns[k]
+		ast.Inspect(f.decl.Body, func(n ast.Node) bool {
+			c, ok := n.(*ast.CallExpr)
+			if !ok {
+				return true
+			}
+			switch nm := extName(f.pkg.Info, c); nm {
+			case "context.Background", "context.TODO", "context.WithoutCancel":
+				out = append(out, ctxSubst{k, nm, len(a.ctxParamObjs(f, c)) > 0})
+			}
+			return true
+		})
+	}
+	return out
 }
 
 func (a *analysis) background(f *fn, at ast.Node) string {
@@ -1211,6 +1282,11 @@ func factsC19(b *strings.Builder) error {
 	b.WriteString("].\n\nDefinition raw_io : list raw_site := [\n" + joinCoq(rawLines))
 	b.WriteString("\n].\n\nDefinition io_sites : list io_site := [\n" + joinCoq(siteLines))
 	b.WriteString("\n].\n\n(* call sites in the caller packages server/, client/, ccb/ *)\nDefinition caller_sites : list io_site := [\n" + joinCoq(callerLines))
+	var substLines []string
+	for _, c := range a.ctxSubsts() {
+		substLines = append(substLines, fmt.Sprintf("  mk_subst %d %s %v", id(c.fn), coqStr(c.callee), c.hasCtx))
+	}
+	b.WriteString("\n].\n\n(* every context.Background / TODO / WithoutCancel call in stream, message, security, server, client, ccb *)\nDefinition ctx_substs : list ctx_subst := [\n" + joinCoq(substLines))
 	b.WriteString("\n].\n\nDefinition ctx_inits : list ctx_init := [\n" + joinCoq(initLines))
 	b.WriteString("\n].\n")
 	return nil
